@@ -9,6 +9,16 @@ def run(c):
                n_quick=1200, n_thorough=16000)
     sm.e2e(c, "c10", spec=["spec_e2e_no_orphans", "spec_e2e_prescribed"], premise=["premise_e2e_dead"], n_quick=30, n_thorough=500)
     _c10_app.run(c)
+    # pools: every worker ever started (initial, added, replacement spawned by forward) dies with the pool
+    is_pool_replay = False
+    if c.replay:
+        import json
+        is_pool_replay = json.load(open(c.replay)).get("engine", "") == "pool-orphans"
+    if not c.replay or is_pool_replay:
+        args = ["orphans", "-replay", c.replay] if is_pool_replay else ["orphans", "-n", "60" if c.tier == "quick" else "600"]
+        out = c.harness("pool", args, timeout=900)
+        if out:
+            c.monitor("pool-orphans", out)
     c.assumptions += sm.ASSUMPTIONS + [
         "terminations that bypass the machine (Node.Kill of the supervisor, failed Spawn during a restart) rely on the "
         "LinkParent exit propagation of node/ - checked end to end on the real node only, not a theorem of this engine",
